@@ -7,10 +7,10 @@ V = os.path.dirname(os.path.dirname(os.path.abspath(__file__)))
 P = sys.argv[1]
 props = [P] + sys.argv[2:]
 for X in "AB":
-    src = "/tmp/wt_%s/seed_%s" % (P, X)
+    src = os.environ.get("SEED_SRC", "/tmp/wt_%s") % P + "/seed_%s" % X
     if not os.path.exists(os.path.join(src, "patch.diff")):
         print("no seed", src); continue
-    dst = os.path.join(V, "seeded", "%s_%s" % (P, X))
+    dst = os.path.join(V, "seeded", "%s_%s%s" % (P, os.environ.get("SEED_TAG", ""), X))
     os.makedirs(dst, exist_ok=True)
     for f in ("patch.diff", "demo_test.go", "notes.txt"):
         if os.path.exists(os.path.join(src, f)):
